@@ -10,6 +10,7 @@ import (
 	"os"
 	"path/filepath"
 	"sort"
+	"strconv"
 	"strings"
 	"sync/atomic"
 
@@ -105,11 +106,44 @@ func sortLogNamesOldToNew(dirEntries []os.DirEntry) []string {
 	//   audit.log  audit.log.1  audit.log.2  audit.log.3  audit.log.4
 	//   $ test-app /var/log/audit/
 	//   [audit.log.4 audit.log.3 audit.log.2 audit.log.1 audit.log]
+	//
+	// The rotation number is compared numerically: as strings,
+	// "audit.log.10" sorts between "audit.log.1" and "audit.log.2".
 	sort.Slice(oldestToNew, func(i, j int) bool {
+		ni, iIsNum := logRotationNumber(oldestToNew[i])
+		nj, jIsNum := logRotationNumber(oldestToNew[j])
+
+		if iIsNum && jIsNum && ni != nj {
+			return ni > nj
+		}
+
 		return oldestToNew[i] > oldestToNew[j]
 	})
 
 	return oldestToNew
+}
+
+// logRotationNumber returns the rotation number of an audit log file name:
+// zero for the live log ("audit.log") and N for "audit.log.N". The boolean
+// is false if the name does not have that form.
+func logRotationNumber(name string) (int, bool) {
+	const liveLog = "audit.log"
+
+	if name == liveLog {
+		return 0, true
+	}
+
+	suffix := strings.TrimPrefix(name, liveLog+".")
+	if suffix == name {
+		return 0, false
+	}
+
+	n, err := strconv.Atoi(suffix)
+	if err != nil || n < 0 {
+		return 0, false
+	}
+
+	return n, true
 }
 
 // LogDirReader reads audit logs from a directory and tails the active
